@@ -49,7 +49,8 @@ ValueJson(v) ==
 Verdict(ev) ==
     LET g == EnvOf(ev)
         want == Eval(ev.e, g, Ctx(ev.ctx))
-    IN IF HasField(ev, "panic") THEN "panic:" \o ev.panic
+    IN IF Bad(want) THEN ""                 \* outside the exact model: not checked
+       ELSE IF HasField(ev, "panic") THEN "panic:" \o ev.panic
        ELSE IF want.t = "ns"
        THEN IF ~HasField(ev, "ids") THEN "type"
             ELSE IF SeqToSet(ev.ids) # want.v THEN "set"
@@ -69,12 +70,12 @@ Verdict(ev) ==
 WantJson(ev) ==
     LET g == EnvOf(ev)
         want == Eval(ev.e, g, Ctx(ev.ctx))
-    IN IF want.t = "ns" THEN Asc(g.d, want.v) ELSE want
+    IN IF want.t = "ns" THEN Asc(g.d, want.v) ELSE IF Bad(want) THEN VS("?") ELSE want
 
 Validate ==
     ph = 2 =>
       LET ev == Trace[l]
-          v == Verdict(ev)
+          v == IF Tainted(ev.e, EnvOf(ev), Ctx(ev.ctx)) THEN "" ELSE Verdict(ev)
       IN IF v = "" THEN TRUE
          ELSE CSVWrite("%1$s", <<ToJson([l |-> l, fail |-> v, want |-> WantJson(ev)])>>, OutFile)
 =============================================================================
